@@ -75,4 +75,123 @@ def RClass.mustRaise : RClass → Bool
   | .contradictory => true
   | _ => false
 
+
+/-! ### LayeredArchitecture histories (C16) -/
+
+inductive LCall
+  | withLayer
+  | layer (name : List Char)
+  | modules (ms : List (List Char))      -- containing_modules, string or list argument alike
+  | regex (r : List Char)
+deriving DecidableEq, Repr
+
+structure LTrack where
+  closed : List (List Char × List (List Char)) := []   -- finished layers with their supplied identifiers, in order
+  opened : Option (List Char) := none
+deriving Repr
+
+inductive LStep
+  | ok (t : LTrack)
+  | reject            -- the property demands a configuration error at this call
+  | dontCare          -- the property does not constrain this call (empty module list, regex equal to a module name)
+
+def LTrack.assigned (t : LTrack) : List (List Char) := t.closed.flatMap (·.2)
+
+def LTrack.step (t : LTrack) : LCall → LStep
+  | .withLayer => .ok t
+  | .layer n =>
+    if t.opened.isSome then .reject
+    else if t.closed.any (·.1 == n) then .reject
+    else .ok { t with opened := some n }
+  | .modules ms =>
+    match t.opened with
+    | none => .reject
+    | some n =>
+      if ms.isEmpty then .dontCare
+      else if ms.any t.assigned.contains then .reject
+      else .ok { closed := t.closed ++ [(n, ms)], opened := none }
+  | .regex r =>
+    match t.opened with
+    | none => .reject
+    | some n =>
+      if t.assigned.contains r then .dontCare
+      else .ok { closed := t.closed ++ [(n, [r])], opened := none }
+
+inductive LOutcome
+  | accepted (t : LTrack)
+  | rejectedAt (i : Nat)
+  | unspecified
+deriving Repr
+
+def classifyLArchFrom (t : LTrack) (i : Nat) : List LCall → LOutcome
+  | [] => .accepted t
+  | c :: cs =>
+    match t.step c with
+    | .reject => .rejectedAt i
+    | .dontCare => .unspecified
+    | .ok t' => classifyLArchFrom t' (i + 1) cs
+
+def classifyLArch (cs : List LCall) : LOutcome := classifyLArchFrom {} 0 cs
+
+/-! ### LayerRule histories (C13 / C16) -/
+
+inductive LRCall
+  | basedOn
+  | layersThat
+  | named (nLayers : Nat) (isList : Bool) (allDefined : Bool)
+  | should | shouldOnly | shouldNot
+  | accessType (exc : Bool)
+  | anyLayer
+deriving DecidableEq, Repr
+
+structure LRTrack where
+  arch : Bool := false
+  started : Bool := false          -- layers_that() seen
+  inner : RTrack := {}
+deriving Repr
+
+inductive LRStep
+  | ok (t : LRTrack)
+  | reject                          -- configuration error at this call
+  | lookup                          -- lookup error at this call (undefined layer)
+
+def LRTrack.step (t : LRTrack) : LRCall → LRStep
+  | .basedOn => if t.arch then .reject else .ok { t with arch := true }
+  | .layersThat => if !t.arch then .reject else .ok { t with started := true, inner := { target := some true } }
+  | .named n isList allDefined =>
+    if !t.started then .reject
+    else if t.inner.target == some true && (isList || t.inner.subject) then .reject   -- exactly one subject layer
+    else if !t.inner.subject && isList then .reject   -- a list before any subject is always taken as a subject batch
+    else if !allDefined then .lookup
+    else
+      match t.inner.step (.naming (0 < n)) with
+      | some i => .ok { t with inner := i }
+      | none => .reject
+  | c =>
+    if !t.started then .reject
+    else
+      let rc : RCall := match c with
+        | .should => .should | .shouldOnly => .shouldOnly | .shouldNot => .shouldNot
+        | .accessType e => .importType e | _ => .anything
+      match t.inner.step rc with
+      | some i => .ok { t with inner := i }
+      | none => .reject
+
+inductive LRClass
+  | rejectedAt (i : Nat)
+  | lookupAt (i : Nat)
+  | final (c : RClass)          -- every call accepted; class of the finished history
+  | notStarted                  -- assert_applies without layers_that(): configuration error
+deriving DecidableEq, Repr
+
+def classifyLayerRuleFrom (t : LRTrack) (i : Nat) : List LRCall → LRClass
+  | [] => if t.started then .final t.inner.classify else .notStarted
+  | c :: cs =>
+    match t.step c with
+    | .reject => .rejectedAt i
+    | .lookup => .lookupAt i
+    | .ok t' => classifyLayerRuleFrom t' (i + 1) cs
+
+def classifyLayerRule (cs : List LRCall) : LRClass := classifyLayerRuleFrom {} 0 cs
+
 end PtaSpec
